@@ -123,10 +123,15 @@ func TestC11(t *testing.T) {
 				res := c.run(nolog)
 				dt := time.Since(t0)
 				if res.v != nil {
+					if res.rc != nil {
+						c = *res.rc
+					}
 					if !confirm(c, res.v) {
 						mu.Lock()
 						outcomes.Add("nondeterminism_detected:" + c.F)
 						mu.Unlock()
+						cj, _ := json.Marshal(c)
+						info("not reproducible in 3 re-runs, not judged (a harness defect unless the case involves Dial's random ephemeral keys): %s on %s", res.v.sig, cj)
 						continue
 					}
 					run.Violation(res.v.sig, res.v.what, c)
@@ -176,7 +181,9 @@ func TestC11(t *testing.T) {
 			"distinct_nontrivial = distinct case classes in which an oracle clause was exercised non-vacuously: a tampered/foreign input that differs from every genuine one and was rejected " +
 			"(keyed by family, act or frame size, byte position(s)/cut, direction, rotation phase and error class - the 255 replacement values of one position count once), " +
 			"a partial-write pattern that really interrupted the frame (keyed by the cut regions), " +
-			"or a (mode, direction, size, rotation phase, key epoch) in which a delivered message was compared byte-for-byte",
+			"or a (mode, direction, size, rotation phase, key epoch) in which a delivered message was compared byte-for-byte, " +
+			"or (duplex) a schedule that really nests one end's read steps inside its write steps or vice versa, keyed by (API mode, role, sizes, rotation phases, cut regions, read fragmentation, number of writer segments before the first / last reader segment); " +
+			"for the duplex family a case is a whole schedule space and every executed schedule is one evaluation",
 		"samples":             smp,
 		"cases_enumerated":    len(cases),
 		"cases_executed":      executed,
@@ -205,6 +212,8 @@ func TestC11(t *testing.T) {
 		"only the FIRST read of tampered data is judged; lnd drops the connection on a read error, and Decrypt advancing the nonce on failure is not judged",
 		"nonce uniqueness is observed black-box through ciphertext equality of identical plaintexts; this relies on header and body both being sealed with empty associated data (true for BOLT-8)",
 		"Conn.Read on an empty (0-byte) record returns (0, io.EOF) from the drained buffer; recorded as an observation (zero bytes delivered), not judged",
+		"duplex: the two goroutines of the real program are taken to interleave at the granularity of calls into the transport (sequentially consistent, a goroutine is descheduled only where it can block); finer-grained data races inside one call are out of scope",
+		"duplex: data returned by a read is compared again after all later operations of the same end (the API hands the caller its own buffer)",
 		"the responder half of brontide.Conn is reachable only through Listener over loopback TCP; a guard timeout there is 'inconclusive', never a violation",
 	)
 	fmt.Printf("INFO C11 %s: %d cases (%d executed), %d evaluations, %d distinct non-trivial classes, %d outcome classes\n",
@@ -280,6 +289,7 @@ func boundsText(thorough bool) map[string]any {
 		"flush":     "sizes {0,1,17}: every first allowance k1 in [0,frame], every second allowance k2 in [0,frame-k1], one byte per flush, stalled flushes; size 65535: every k1,k1+k2 within +-2 of frame start/header end/payload end/MAC end; at message index {0,499,500} (thorough {0,1,498..501,999,1000,1499,1500}); both directions; Machine.Flush and Conn.Write/Flush; both timeout conventions; WriteMessage while pending",
 		"connwrite": "Conn.Write of 65536 / 131070 / 131071 bytes (2-3 records): first allowance at every record boundary +-, second allowance from {0,1,17,18,19,65535,frame-1,frame}; resume = Flush until nil then Write the rest",
 		"tamper":    "payload sizes {0,1,2,17,32}: every frame byte x 255 values at message 0 (thorough also at 499,500,999,1000), {01,80,ff} at the rotation positions; 65535: boundary bytes; byte pairs; truncation, deletion, insertion (00,ff) at every offset; swap, drop, replay, header/body splice, header<->body, zero frame, reflection, other-session frame; readers: ReadMessage, ReadHeader+ReadBody, Conn.ReadNextMessage, Conn.Read; both directions",
+		"duplex":    "one end (Machine as initiator and as responder via ReadMessage or ReadHeader+ReadBody; dialled Conn via Write/ReadNextMessage, WriteMessage+Flush/ReadNextHeader+Body, Write/Read) runs a writer thread (WriteMessage, Flush with allowance k1 [,k2], Flush to completion, per message) and a reader thread (inbound messages already on the wire) - ALL interleavings of their segments (scheduling points: thread start, between two outbound messages, every transport Write inside Flush, every transport Read inside ReadHeader/ReadBody), 10..495 schedules per case. (A) 1 out x 1 in at message 0: out sizes {0,1,17} (thorough {0,1,2,17,32}) x every k1 in [0,frame] x inbound delivered whole or split mid-header; boundary k1 x inbound sizes {0,17} x inbound split at {1,2,17,18,19,frame-1} (thorough every offset, except Conn.Write-based modes); (B) out index x in index over {0,499,500}^2 (thorough {0,499,500,501,999,1000}^2 for the Machine modes and WriteMessage+Flush/ReadNextHeader+Body) x boundary k1; (C) 65535-byte frames either/both ways x k1 within +-2 of every boundary; (D) 2 out x 2 in with cuts in the first {0,7,18,20} (thorough every k1 of the 35-byte frame) and second {none,0,18} message; (E) two cuts k1 in {0,1,17}, k2 in {0,1,to header end,+1} (thorough all k1,k2 of a 1-byte message for ReadMessage and the Conn WriteMessage+Flush pair); both timeout conventions (quick: eager only for 1-byte/Machine). Cases at message 0/0 run their schedules back to back on one session while all indexes stay < 400 (mid-epoch indexes are taken as equivalent); all other cases use a fresh session per schedule at the exact indexes",
 		"nonce":     "6 sessions x 2 directions x 1600 (thorough 3200) identical 2-byte messages = 3200 (6400) seals per direction, 3 (6) rotations",
 	}
 	b["tier"] = map[bool]string{false: "quick", true: "thorough"}[thorough]
